@@ -108,6 +108,12 @@ type gconn struct {
 	grants    chan struct{}
 	arrivals  atomic.Int64
 	returns   atomic.Int64 // Reads that have returned
+	kind      string       // cw | same | split | none: what the relay is handed for this side
+	dataReads atomic.Int64 // Reads that returned n > 0
+	tailOut   atomic.Bool  // a Read has returned the tail
+	wReturned atomic.Int64 // Writes that have returned (accepted or refused)
+	wRefused  atomic.Bool  // a Write was refused
+	writerClosed bool      // the relay called Close on the WRITER object of a wrapper (never in the code as built)
 	granted   int64
 	free      atomic.Bool // gating abandoned (after a stall): Reads no longer wait
 
@@ -148,6 +154,18 @@ func (c *gconn) exhausted() bool {
 func (c *gconn) Read(p []byte) (_ int, _ error) {
 	c.arrivals.Add(1)
 	defer c.returns.Add(1)
+	return c.read(p)
+}
+
+func (c *gconn) read(p []byte) (n int, err error) {
+	defer func() {
+		if n > 0 {
+			c.dataReads.Add(1)
+		}
+		if err != nil {
+			c.tailOut.Store(true)
+		}
+	}()
 	c.mu.Lock()
 	if c.closed {
 		c.mu.Unlock()
@@ -199,12 +217,18 @@ func (c *gconn) Read(p []byte) (_ int, _ error) {
 		}
 		return n, nil
 	}
-	n := copy(p, c0[:len(p)])
+	n = copy(p, c0[:len(p)])
 	c.chunks[0] = c0[len(p):]
 	return n, nil
 }
 
-func (c *gconn) Write(p []byte) (int, error) {
+func (c *gconn) Write(p []byte) (n int, err error) {
+	defer func() {
+		if err != nil {
+			c.wRefused.Store(true)
+		}
+		c.wReturned.Add(1)
+	}()
 	c.mu.Lock()
 	if c.closed || c.cw {
 		c.bad = true
@@ -298,6 +322,75 @@ func (c *gconn) Close() error {
 func (c *gconn) isCW() bool     { c.mu.Lock(); defer c.mu.Unlock(); return c.cw }
 func (c *gconn) isClosed() bool { c.mu.Lock(); defer c.mu.Unlock(); return c.closed }
 func (c *gconn) streamLen() int { c.mu.Lock(); defer c.mu.Unlock(); return len(c.stream) }
+
+// ---- endpoint kinds: what the relay is handed for a side
+
+// closeOnly: a transport connection with Close but no CloseWrite (websocket / KCP / QUIC style).
+// Close on it closes the whole connection, both directions.
+type closeOnly struct{ g *gconn }
+
+func (c closeOnly) Read(p []byte) (int, error)  { return c.g.Read(p) }
+func (c closeOnly) Write(p []byte) (int, error) { return c.g.Write(p) }
+func (c closeOnly) Close() error {
+	c.g.mu.Lock()
+	c.g.writerClosed = true
+	c.g.mu.Unlock()
+	return c.g.Close()
+}
+
+type readSide struct{ g *gconn }
+
+func (r readSide) Read(p []byte) (int, error) { return r.g.Read(p) }
+
+// writeSideCloser: a separate writer object with Close (closing it ends the write half only).
+type writeSideCloser struct{ g *gconn }
+
+func (w writeSideCloser) Write(p []byte) (int, error) { return w.g.Write(p) }
+func (w writeSideCloser) Close() error {
+	w.g.mu.Lock()
+	w.g.writerClosed = true
+	w.g.mu.Unlock()
+	return w.g.CloseWrite()
+}
+
+type writeOnly struct{ g *gconn }
+
+func (w writeOnly) Write(p []byte) (int, error) { return w.g.Write(p) }
+
+// endpoint builds the object handed to the relay exactly as the production callers do:
+// mapping/base.go, target_handler.go createTunnelRWC and socks5_tunnel.go all call
+// iocopy.NewReadWriteCloser(tunnelReader, tunnelWriter, closeFn) with reader and writer being the same
+// transport connection and closeFn closing it.
+func endpoint(g *gconn) io.ReadWriteCloser {
+	closeFn := func() error { return g.Close() }
+	var rwc io.ReadWriteCloser
+	var err error
+	switch g.kind {
+	case "same":
+		conn := closeOnly{g}
+		rwc, err = iocopy.NewReadWriteCloser(conn, conn, closeFn)
+	case "split":
+		rwc, err = iocopy.NewReadWriteCloser(readSide{g}, writeSideCloser{g}, closeFn)
+	case "none":
+		rwc, err = iocopy.NewReadWriteCloser(readSide{g}, writeOnly{g}, closeFn)
+	default:
+		return g
+	}
+	if err != nil {
+		panic(err)
+	}
+	return rwc
+}
+
+// loopLeft: the goroutine copying src -> sink has left its loop (needed for sinks on which no
+// half-close is observable): the source has returned its tail and every chunk read has been through
+// Write, or a Write was refused.
+func loopLeft(src, sink *gconn) bool {
+	if sink.wRefused.Load() {
+		return true
+	}
+	return src.tailOut.Load() && src.dataReads.Load() == sink.wReturned.Load() && !sink.isHeld()
+}
 
 // udpOnly hides CloseWrite: a UDP socket has no half-close.
 type udpOnly struct{ c *gconn }
@@ -451,6 +544,7 @@ func runRelay(f func() *iocopy.Result, returned *atomic.Bool) chan relayRes {
 // ---------------------------------------------------------------- TCP
 
 type epSpec struct {
+	kind   string
 	tail   string
 	fused  bool
 	wfail  int
@@ -468,6 +562,11 @@ func stepsFor(chunks [][]byte) int {
 
 func parseEP(t []string) (epSpec, []string, error) {
 	var e epSpec
+	e.kind = "cw"
+	if len(t) > 0 && (t[0] == "cw" || t[0] == "same" || t[0] == "split" || t[0] == "none") {
+		e.kind = t[0]
+		t = t[1:]
+	}
 	if len(t) < 5 {
 		return e, nil, errors.New("short endpoint")
 	}
@@ -517,11 +616,29 @@ func runTCP(toks []string) (string, error) {
 	}
 	A := newConn("A", ea.chunks, ea.tail, ea.fused, ea.wfail, ea.cot, false)
 	B := newConn("B", eb.chunks, eb.tail, eb.fused, eb.wfail, eb.cot, false)
+	A.kind, B.kind = ea.kind, eb.kind
 	var returned atomic.Bool
-	ch := runRelay(func() *iocopy.Result { return iocopy.Bidirectional(A, B, nil) }, &returned)
+	connA, connB := endpoint(A), endpoint(B)
+	ch := runRelay(func() *iocopy.Result { return iocopy.Bidirectional(connA, connB, nil) }, &returned)
 	s := &sched{conns: []*gconn{A, B}}
-	finAB := func() bool { return B.isCW() || returned.Load() }
-	finBA := func() bool { return A.isCW() || returned.Load() }
+	// a direction is over when its half-close reached the sink; for a sink on which no half-close is
+	// observable: when the goroutine has left its loop (plus a moment for what it does on the way out)
+	settled := map[*gconn]bool{}
+	fin := func(src, sink *gconn) bool {
+		if sink.isCW() || returned.Load() {
+			return true
+		}
+		if sink.kind != "cw" && loopLeft(src, sink) {
+			if !settled[sink] {
+				settled[sink] = true
+				time.Sleep(300 * time.Microsecond)
+			}
+			return true
+		}
+		return false
+	}
+	finAB := func() bool { return fin(A, B) }
+	finBA := func() bool { return fin(B, A) }
 	for _, t := range sc {
 		switch t {
 		case 'a':
@@ -561,7 +678,7 @@ func runTCP(toks []string) (string, error) {
 		}
 		r := rr.r
 		return fmt.Sprintf("ret 1 toB %s toA %s wfB %s wfA %s bad %s cwB %s cwA %s cl %s sent %d recv %d serr %s rerr %s",
-			vc.Hex(B.stream), vc.Hex(A.stream), b01(B.wfEnv), b01(A.wfEnv), b01(A.bad || B.bad), b01(B.cw), b01(A.cw),
+			vc.Hex(B.stream), vc.Hex(A.stream), b01(B.wfEnv), b01(A.wfEnv), b01(A.bad || B.bad || A.writerClosed || B.writerClosed), b01(B.cw), b01(A.cw),
 			b01(A.closed && B.closed), r.BytesSent, r.BytesReceived, errKind(r.SendError), errKind(r.ReceiveError)), nil
 	case <-time.After(watchdog):
 		timeouts.Add(1)
